@@ -89,11 +89,9 @@ def parts : Nat → Bytes → Bytes → List Part → Option (List Part)
       match headers (r.length + 1) {} r with
       | none => none
       | some (h, r) =>
-        let (before, r') := readUntil boundary r
-        if before.length < 2 then none else
-        let content := before.take (before.length - 2)
-        if before.drop (before.length - 2) != CRLF then none else
-        match consume boundary r' with
+        -- the delimiter that closes a part is CRLF "--" boundary (RFC 2046 5.1.1): "--" boundary in the middle of a line is content
+        let (content, r') := readUntil (CRLF ++ boundary) r
+        match consume (CRLF ++ boundary) r' with
         | none => none
         | some r'' =>
           match h.filename with
